@@ -10,6 +10,14 @@ from treadmill import scheduler
 
 _REC = None
 _INSTALLED = False
+_CYCLE_HOOK = None
+
+
+def set_cycle_hook(hook):
+    """hook(cell, orig_schedule) -> placement, called instead of
+    Cell.schedule (used to observe cycles run by the real Master)."""
+    global _CYCLE_HOOK
+    _CYCLE_HOOK = hook
 
 
 class Recorder:
@@ -38,6 +46,14 @@ def install():
     if _INSTALLED:
         return
     _INSTALLED = True
+
+    orig_schedule = scheduler.Cell.schedule
+
+    def schedule(self):
+        hook = _CYCLE_HOOK
+        if hook is None:
+            return orig_schedule(self)
+        return hook(self, orig_schedule)
 
     orig_find = scheduler.Cell._find_placements
     orig_record = scheduler.Cell._record_rank_and_util
@@ -125,6 +141,7 @@ def install():
                                'find' if rec.in_find else 'pre'))
         return orig_server_remove(self, app_name)
 
+    scheduler.Cell.schedule = schedule
     scheduler.Cell.schedule_alloc = schedule_alloc
     scheduler.Cell._record_rank_and_util = _record_rank_and_util
     scheduler.Cell._find_placements = _find_placements
